@@ -1,7 +1,7 @@
 (* C02 -- JSON Schema: every sample labelled invalid is rejected by the schema.
    Leaf level (proved here): each number labelled invalid lies just outside the bound it was built from. *)
-From Fences Require Import JsonGen JsonLeaves JsonEnum.
-From Coq Require Import ZArith.
+From Fences Require Import JsonGen JsonLeaves JsonEnum Json Normalize JsonValid JsonLeafSem.
+From Coq Require Import ZArith String.
 Local Open Scope Z_scope.
 
 Theorem C02_number_leaf : forall mn mx v,
@@ -28,3 +28,19 @@ Theorem C02_enum_leaf : forall ne en x,
   In x (enum_invalid' ne en) -> pmem x en = false.
 Proof. exact enum_invalid_not_member. Qed.
 Print Assumptions C02_enum_leaf.
+
+(* the same counter-examples judged by the keyword semantics kvalid: each bound keyword of the alternative is violated by
+   one of the numbers the handler marks invalid (minimum m by m - 1, exclusiveMinimum e by e, and symmetrically) *)
+Theorem C02_number_leaf_keywords : forall mn emn mx emx,
+  let lo := fst (number_bounds mn emn mx emx) in
+  let hi := snd (number_bounds mn emn mx emx) in
+  (forall m, mn = Some m -> emn = None ->
+     In (m - 1) (number_invalid_values lo hi) /\ ~ kvalid (kw "minimum"%string) (JNum m) (JNum (m - 1))) /\
+  (forall e, emn = Some e ->
+     In e (number_invalid_values lo hi) /\ ~ kvalid (kw "exclusiveMinimum"%string) (JNum e) (JNum e)) /\
+  (forall m, mx = Some m -> emx = None ->
+     In (m + 1) (number_invalid_values lo hi) /\ ~ kvalid (kw "maximum"%string) (JNum m) (JNum (m + 1))) /\
+  (forall e, emx = Some e ->
+     In e (number_invalid_values lo hi) /\ ~ kvalid (kw "exclusiveMaximum"%string) (JNum e) (JNum e)).
+Proof. exact number_invalid_kvalid. Qed.
+Print Assumptions C02_number_leaf_keywords.
